@@ -157,7 +157,7 @@ fn fresh_name(ctx: &mut Ctx, taken: &[RunningPolicy], special_names: bool) -> St
 }
 
 pub fn gen_world(ctx: &mut Ctx, focus: Focus) -> World {
-    let cfg = if ctx.tier == Tier::Thorough { GenCfg { max_as: 10, max_sets: 6, max_routes_per_as: 6 } } else { GenCfg { max_as: 5, max_sets: 4, max_routes_per_as: 3 } };
+    let cfg = if ctx.tier == Tier::Thorough { GenCfg { max_as: 10, max_sets: 6, max_routes_per_as: 6, rich_filter_sets: false } } else { GenCfg { max_as: 5, max_sets: 4, max_routes_per_as: 3, rich_filter_sets: false } };
     let mut db = gen_db(ctx, &cfg);
     let max_p = if ctx.tier == Tier::Thorough { 10 } else { 5 };
     let n = 1 + ctx.pick(max_p);
